@@ -96,9 +96,18 @@ func startWorker() *worker {
 
 func stopWorkers() {
 	if theWorker != nil {
+		// end of input lets the worker return from main (and flush coverage data when the
+		// binary is instrumented); a stuck worker is killed
 		theWorker.in.Close()
-		theWorker.cmd.Process.Kill()
-		theWorker.cmd.Wait()
+		done := make(chan struct{})
+		cmd := theWorker.cmd
+		go func() { cmd.Wait(); close(done) }()
+		select {
+		case <-done:
+		case <-time.After(2 * time.Second):
+			cmd.Process.Kill()
+			<-done
+		}
 		theWorker = nil
 	}
 }
